@@ -1207,3 +1207,22 @@ def g_pgi_index(rng, level=0, n_random=100):
     for _ in range(n_random):
         L = int(rng.integers(1, 5))
         yield {'self': _rand_poly(rng, int(rng.integers(1, 4)), L), 'item': rng.integers(0, L, int(rng.integers(0, 6))).astype(np.int64)}
+
+
+@gen(ST + 'stabilizer_state#list')
+def g_stabilizer_state_list(rng, level=0, n_random=150):
+    pa, _ = _pc()
+    for k in range(n_random):
+        N = int(rng.integers(1, 5))
+        gs, ps = rand_tableau(rng, N)
+        L = int(rng.integers(1, N + 1))
+        rows = rng.permutation(N)[:L]
+        g = gs[rows].copy()
+        p = (2 * rng.integers(0, 2, L)).astype(np.int64)
+        if k % 5 == 1 and L >= 2:
+            g[1] = g[0]                                  # dependent generators: the sign assignment cannot be made (ValueError allowed)
+        if k % 5 == 2:
+            g[0] = gs[N + rows[0]]                       # possibly anticommuting with another one
+        if k % 7 == 3:
+            g[0] = 0                                     # the identity string among the generators
+        yield {'stabilizers': (pa.PauliList(g, p),)}
